@@ -131,9 +131,10 @@ def outcome_event(case, run, pristine_flat, fm, world_keys):
         ev["site"] = next((e.get("site", "") for e in reversed(run["events"]) if e["ev"] == "PanicSite"), "") or st
         ev["coveredChecks"] = ["err"] * len(case["cpacks"])
         return ev, None
+    direct = [r_ for e in run["events"] if e["ev"] == "Direct" for r_ in e["readers"] if r_["res"] == "panic"]
     if d["open"] != "ok":
-        ev["open"] = "panic" if d["open"] == "panic" else "err"
-        ev["site"] = d.get("site", "")
+        ev["open"] = "panic" if (d["open"] == "panic" or direct) else "err"
+        ev["site"] = d.get("site", "") if d["open"] == "panic" or not direct else "%s (opened directly by %s)" % (direct[0].get("site", ""), direct[0]["reader"])
         ev["coveredChecks"] = ["err"] * len(case["cpacks"])
         return ev, None
     dump = d["dump"]
@@ -159,10 +160,12 @@ def outcome_event(case, run, pristine_flat, fm, world_keys):
             ev["nDiffStruct"] += 1
             diffs.append((k, "<absent>", fg[k]))
     txt = json.dumps(dump)
-    ev["nCrash"] = txt.count('"panic"') + sum(e.get("panic", 0) for e in run["events"] if e["ev"] == "Concurrent")
+    ev["nCrash"] = txt.count('"panic"') + sum(e.get("panic", 0) for e in run["events"] if e["ev"] == "Concurrent") + len(direct)
     if ev["nCrash"]:
         i = txt.find('"site": "')
         ev["site"] = txt[i + 9:i + 80].split('"')[0] if i >= 0 else ""
+        if direct:
+            ev["site"] = "%s (opened directly by %s)" % (direct[0].get("site", ""), direct[0]["reader"])
     ev["check"] = tri(dump.get("check"))
     pc = dump.get("packChecks", {})
     ev["coveredChecks"] = [tri(pc.get(world_keys.get(k, k), "err")) for k in case["cpacks"]]
@@ -258,17 +261,27 @@ def run(prop, tier):
     shutil.rmtree(base, ignore_errors=True)
     os.makedirs(base)
     if tier == "quick":
-        worlds = [("zstd", "one", 0, 1), ("none", "two", 1, 5)] if prop != "C06" else [("zstd", "one", 0, 1), ("lz4", "one", 0, 5), ("lzma", "two", 1, 5)]
+        worlds = [("zstd", "one", 0, 1), ("none", "two", 1, 5)] if prop != "C06" else [("zstd", "one", 0, 1), ("lz4", "one", 0, 5), ("lzma", "two", 1, 5), ("none", "none", 1, 5)]
         worlds.append(("none", "one", 0, "big"))
+        if prop in ("C04", "C05"):
+            worlds.append(("none", "two", 2, 1, "extra0.jbkc"))     # a pack is unavailable; the packs listed after it are still checked
     else:
         worlds = [(c, m, x, 1) for c in ("none", "lz4", "lzma", "zstd") for m, x in (("one", 0), ("two", 1), ("none", 2))]
         worlds += [("none", "one", 0, "big"), ("zstd", "two", 1, "big")]
+        if prop in ("C04", "C05"):
+            worlds += [("none", "two", 2, 1, "extra0.jbkc"), ("zstd", "none", 2, 1, "extra0.jbkc")]
     events, nontrivial, total = [], set(), 0
     case_index = {}
     confirmed_bad = 0       # crashes / hangs confirmed alone: after a few of them the verdict is reached and the sweep stops
-    for wi, (comp, concat, nex, stride) in enumerate(worlds):
+    for wi, wd in enumerate(worlds):
+        comp, concat, nex, stride = wd[:4]
+        removed = wd[4] if len(wd) > 4 else None
         scn, d = make_world(binaries["debug"], base, rng, wi, comp, concat, nex, tier, big=(stride == "big"))
         entry = os.path.join(d, scn["out"])
+        removed_id = None
+        if removed:
+            os.unlink(os.path.join(d, removed))
+            removed_id = next(ex["pack_id"] for ex in scn["extras"] if ex["file"] == removed)
         req = L.dump_request(scn, entry)
         pr = C.run_scenarios(binaries["debug"], [dict(req, id="pristine")], "I_pristine", timeout=120)["pristine"]
         pd = next((e for e in pr["events"] if e["ev"] == "Dump"), None)
@@ -277,10 +290,14 @@ def run(prop, tier):
             continue
         pristine = pd["dump"]
         exp_diff = L.diff(L.expected_dump(scn), pristine)
+        if removed_id is not None:
+            exp_diff = [x for x in exp_diff if not x[0].startswith("pack/%d/" % removed_id)]
+            if L.flatten(pristine).get("pack/%d/res" % removed_id) != "missing":
+                rep.violation("%s removed pack %d is not reported missing" % (prop, removed_id), {"dump": pristine.get("contents")})
         if exp_diff:
             rep.violation("%s pristine dump differs from the logical container comp=%s mode=%s" % (prop, comp, concat), {"diff": exp_diff[:5]})
             continue
-        if pristine.get("check") is not True or any(v is not True for v in pristine.get("packChecks", {}).values()):
+        if pristine.get("check") is not True or any(v is not True for k_, v in pristine.get("packChecks", {}).items() if k_ != str(removed_id)):
             rep.violation("%s pristine container does not verify comp=%s mode=%s checks=%s" % (prop, comp, concat, json.dumps(pristine.get("packChecks"))),
                           {"check": pristine.get("check")})
         pflat = L.flatten(pristine)
@@ -291,6 +308,8 @@ def run(prop, tier):
         for pi in man["packInfos"]:
             keys[pi["uuid"]] = "d" if pi["kind"] == "d" else str(pi["packId"])
         files = [fn for fn in sorted(os.listdir(d)) if os.path.isfile(os.path.join(d, fn)) and not fn.startswith("in_")]
+        if removed:
+            files = [fn for fn in files if fn.startswith("extra")]       # the packs listed after the unavailable one
         for fn in files:
             fm = FileMap(os.path.join(d, fn), keys)
             cases = gen_cases(fm, rng, tier, prop, stride=stride)
@@ -324,6 +343,8 @@ def run(prop, tier):
                     sc = dict(req, id=sid, damage=c_["damage"])
                     if prop == "C06" and comp != "none" and any(p[0] == "c.data" for p in c_["parts"]) and (i % 7 == 0 or tier == "thorough"):
                         sc["threads"] = 4       # several readers waiting on the same failing decoder
+                    if prop == "C06":
+                        sc["direct"] = True     # the damaged file also opened directly by every pack reader
                     scns.append(sc)
                 t1 = time.time()
                 # (after a dozen crashes / hangs in one batch the verdict is reached: the rest of the batch is skipped)
